@@ -312,6 +312,11 @@ func statusDeviation(s *Script, e *Expect, o *Obs) string {
 	if o.Final.EOF {
 		return fmt.Sprintf("handler failed with code %d but client stream ended with io.EOF (success)", e.Code)
 	}
+	for i, a := range o.After {
+		if a != "error" {
+			return fmt.Sprintf("handler failed with code %d and the stream reported it, but RecvMsg call %d after that returned %s (success)", e.Code, i+1, a)
+		}
+	}
 	if s.Final.anyFailure() {
 		return "" // a failure is all that can be demanded
 	}
